@@ -765,6 +765,14 @@ func runCase(res *lib.Result, drv *lib.Drv, real bool, c Case, idx int) {
 		c.FailAt = offsetOf(doc, c.FailCls, int(c.SeedA%65521))
 	}
 	o := runDecrypt(c, doc, A, B)
+	if o.term == "timeout" {
+		// a genuine hang reproduces; a stall of a heavily loaded machine does not
+		if o2 := runDecrypt(c, doc, A, B); o2.term != "timeout" {
+			o = o2
+			encx.Stuck--
+			res.Hit("retried-after-timeout")
+		}
+	}
 	key, _ := json.Marshal(c)
 	nontrivial := len(c.Muts) > 0 || c.FailAt >= 0 || c.Unwrap != "ok"
 	if nontrivial && bytes.Equal(doc, A.doc) && c.FailAt < 0 && c.Unwrap == "ok" {
